@@ -43,6 +43,49 @@ mod imp {
         fsm::start_fsm_with_data_and_finish_mode(fsm, actions, Box::new(executor.clone()), &[], FinishMode::KEEP_CONFIGURATION)
     }
 
+    /// `notify(x)`: callable from documents; sends x to the harness body through a (controlled) channel
+    #[derive(Clone)]
+    struct NotifyAction {
+        tx: Arc<Mutex<verif_sync::mpsc::Sender<String>>>,
+    }
+
+    impl rufsm::actions::Action for NotifyAction {
+        fn execute(&self, arguments: &[rufsm::datamodel::Data], _global: &rufsm::fsm::GlobalData) -> Result<rufsm::datamodel::Data, String> {
+            let v = arguments.iter().map(|a| a.to_string()).collect::<Vec<_>>().join(",");
+            let _ = self.tx.lock().unwrap().send(v);
+            Ok(rufsm::datamodel::Data::Boolean(true))
+        }
+        fn get_copy(&self) -> Box<dyn rufsm::actions::Action> {
+            Box::new(self.clone())
+        }
+    }
+
+    /// starts a session whose documents (and invoked children) can call notify(..)
+    fn start_n(executor: &FsmExecutor, xml: &str, log: &Arc<RunLog>, tx: &verif_sync::mpsc::Sender<String>) -> ScxmlSession {
+        let g = globals();
+        let mut fsm = parse(xml).expect("harness document must parse");
+        fsm.tracer = Box::new(Recorder::new(log.clone()));
+        let mut actions = ActionWrapper::new();
+        actions.add_action("mark", Box::new(MarkAction { current: g.current.clone() }));
+        actions.add_action("notify", Box::new(NotifyAction { tx: Arc::new(Mutex::new(tx.clone())) }));
+        fsm::start_fsm_with_data_and_finish_mode(fsm, actions, Box::new(executor.clone()), &[], FinishMode::KEEP_CONFIGURATION)
+    }
+
+    /// waits until every name in `want` was notified
+    fn wait_for(rx: &verif_sync::mpsc::Receiver<String>, want: &[&str]) {
+        let mut missing: Vec<String> = want.iter().map(|x| x.to_string()).collect();
+        while !missing.is_empty() {
+            match rx.recv() {
+                Ok(v) => {
+                    if let Some(p) = missing.iter().position(|m| *m == v) {
+                        missing.remove(p);
+                    }
+                }
+                Err(_) => break,
+            }
+        }
+    }
+
     fn spawn<F: FnOnce() + Send + 'static>(f: F) -> verif_sync::thread::JoinHandle<()> {
         verif_sync::thread::Builder::new().spawn(f).unwrap()
     }
@@ -361,6 +404,219 @@ mod imp {
             }
             _ => {}
         }
+        if prop == "C16" {
+            // names of external events processed by the first session, without the cancel event
+            fn processed(o: &Obs) -> Vec<String> {
+                let t = o.recs.first().map(|r| r.0).unwrap_or(0);
+                xrecv_names(&o.recs, t).into_iter().filter(|n| n != fsm::EVENT_CANCEL_SESSION).collect()
+            }
+            fn mk(name: &'static str, qb: usize, tb: usize, doc: String, host_events: Vec<&'static str>, wait: Vec<&'static str>, oracle: Oracle) -> Scenario {
+                Scenario {
+                    name,
+                    quick_bound: qb,
+                    thorough_bound: tb,
+                    atomics: false,
+                    body: Box::new(move |log, _notes| {
+                        let doc = doc.clone();
+                        let host_events = host_events.clone();
+                        let wait = wait.clone();
+                        Box::new(move || {
+                            let ex = FsmExecutor::new_without_io_processor();
+                            let (tx, rx) = verif_sync::mpsc::channel::<String>();
+                            let sess = start_n(&ex, &doc, &log, &tx);
+                            for e in host_events {
+                                let _ = sess.sender.send(Box::new(Event::new_simple(e)));
+                            }
+                            wait_for(&rx, &wait);
+                            cancel_and_join(sess);
+                        })
+                    }),
+                    oracle,
+                }
+            }
+            let note = r##"<transition event="*"><script>mark('got', _event.name); notify(_event.name)</script></transition>"##;
+            // order by due time, units and delayexpr
+            v.push(mk(
+                "due-time-order",
+                2,
+                3,
+                format!(
+                    r##"<scxml {ns} name="t1"><state id="a"><onentry><send event="late" delay="30ms"/><send event="early" delay="10ms"/><send event="mid" delayexpr="'0.02s'"/><send event="last" delay="1m"/></onentry>{note}</state></scxml>"##,
+                    ns = NS,
+                    note = note
+                ),
+                vec![],
+                vec!["late", "early", "mid", "last"],
+                Box::new(|o: &Obs| {
+                    basic_outcome(o)?;
+                    let p = processed(o);
+                    // due times as the (virtual) timer saw them: the k-th scheduled item belongs to the k-th <send>
+                    let names = ["late", "early", "mid", "last"];
+                    let delays = [30i64, 10, 20, 60_000];
+                    let mut items: Vec<(i64, usize, &str)> = vec![];
+                    for st in &o.result.steps {
+                        if let Some(rest) = st.op.strip_prefix("timer-item ") {
+                            let due: i64 = rest.split("due=").nth(1).and_then(|x| x.parse().ok()).unwrap_or(-1);
+                            let k = items.len();
+                            if k < names.len() {
+                                if due - st.now != delays[k] {
+                                    return Err(("wrong-delay".into(), format!("<send> #{} ({}) was scheduled with a delay of {} ms instead of {} ms", k, names[k], due - st.now, delays[k])));
+                                }
+                                items.push((due, k, names[k]));
+                            }
+                        }
+                    }
+                    items.sort();
+                    let exp: Vec<&str> = items.iter().map(|x| x.2).collect();
+                    if p != exp {
+                        return Err(("due-order".into(), format!("delayed events processed in order {:?}, their due order on the timer's clock was {:?}", p, items)));
+                    }
+                    Ok(p.join(">"))
+                }),
+            ));
+            // cancel one of two; the other one is unaffected
+            v.push(mk(
+                "cancel-one-of-two",
+                2,
+                3,
+                format!(
+                    r##"<scxml {ns} name="t2"><state id="a"><onentry><send id="x" event="c" delay="10ms"/><send id="y" event="d" delay="20ms"/></onentry>
+<transition event="stop"><cancel sendid="x"/><script>mark('cancelled')</script></transition>{note}</state></scxml>"##,
+                    ns = NS,
+                    note = note
+                ),
+                vec!["stop"],
+                vec!["d"],
+                Box::new(|o: &Obs| {
+                    basic_outcome(o)?;
+                    let p = processed(o);
+                    let nc = p.iter().filter(|n| *n == "c").count();
+                    let nd = p.iter().filter(|n| *n == "d").count();
+                    if nd != 1 {
+                        return Err(("other-id-affected".into(), format!("event d (id y, never cancelled) processed {} times: {:?}", nd, p)));
+                    }
+                    // scheduler step log: was the item of send x cancelled before the timer popped it?
+                    let steps: Vec<&String> = o.result.steps.iter().map(|s| &s.op).collect();
+                    let first_item_pop = steps.iter().position(|s| s.starts_with("timer-pop"));
+                    let cancel = steps.iter().position(|s| s.starts_with("timer-cancel"));
+                    let cancelled_first = match (cancel, first_item_pop) {
+                        (Some(c), Some(pp)) => c < pp,
+                        (Some(_), None) => true,
+                        _ => false,
+                    };
+                    if cancelled_first && nc != 0 {
+                        return Err(("delivered-after-cancel".into(), format!("<cancel> ran before the timer took the event, yet c was processed: {:?}", p)));
+                    }
+                    if nc > 1 {
+                        return Err(("delivered-twice".into(), format!("{:?}", p)));
+                    }
+                    if !cancelled_first && nc != 1 {
+                        return Err(("lost".into(), format!("the timer took event c before <cancel> ran and the session was alive, yet c was not processed: {:?}", p)));
+                    }
+                    Ok(format!("c={} cancelled_first={}", nc, cancelled_first))
+                }),
+            ));
+            // arguments are evaluated when the send executes
+            v.push(mk(
+                "arguments-at-send-time",
+                1,
+                2,
+                format!(
+                    r##"<scxml {ns} name="t3"><datamodel><data id="v" expr="1"/><data id="arr" expr="[1,2]"/></datamodel><state id="a"><onentry>
+<send event="p" delay="10ms"><param name="v" expr="v"/><param name="a" expr="arr[0]"/></send><assign location="v" expr="99"/></onentry>
+<transition event="p"><script>mark('data', _event.data.v, _event.data.a); notify('p')</script></transition></state></scxml>"##,
+                    ns = NS
+                ),
+                vec![],
+                vec!["p"],
+                Box::new(|o: &Obs| {
+                    basic_outcome(o)?;
+                    let m: Vec<Vec<String>> = o
+                        .recs
+                        .iter()
+                        .filter_map(|(_, r)| match r {
+                            Rec::Mark { args, .. } if args.first().map(|a| a == "data").unwrap_or(false) => Some(args.clone()),
+                            _ => None,
+                        })
+                        .collect();
+                    if m != vec![vec!["data".to_string(), "1".to_string(), "1".to_string()]] {
+                        return Err(("arguments-late".into(), format!("delayed event carries {:?}, the values at send time were v=1 a=1", m)));
+                    }
+                    Ok("ok".into())
+                }),
+            ));
+            // the same send id used twice: both are delivered, in due order
+            v.push(mk(
+                "same-id-twice",
+                1,
+                2,
+                format!(
+                    r##"<scxml {ns} name="t4"><state id="a"><onentry><send id="x" event="c1" delay="10ms"/><send id="x" event="c2" delay="20ms"/></onentry>{note}</state></scxml>"##,
+                    ns = NS,
+                    note = note
+                ),
+                vec![],
+                vec!["c2"],
+                Box::new(|o: &Obs| {
+                    basic_outcome(o)?;
+                    let p = processed(o);
+                    if p != vec!["c1", "c2"] {
+                        return Err(("same-id".into(), format!("two delayed sends with the same id, none cancelled: processed {:?}", p)));
+                    }
+                    Ok("ok".into())
+                }),
+            ));
+            // the session is cancelled while its delayed send is due
+            v.push(Scenario {
+                name: "session-ends-with-pending-send",
+                quick_bound: 2,
+                thorough_bound: 3,
+                atomics: false,
+                body: Box::new(move |log, _notes| {
+                    Box::new(move || {
+                        let ex = FsmExecutor::new_without_io_processor();
+                        let (tx, _rx) = verif_sync::mpsc::channel::<String>();
+                        let target = start_n(&ex, &format!(r##"<scxml {ns} name="tgt"><state id="a"><transition event="*"><script>mark('got', _event.name)</script></transition></state></scxml>"##, ns = NS), &log, &tx);
+                        let tid = target.session_id;
+                        let doc = format!(
+                            r##"<scxml {ns} name="t5"><state id="a"><onentry><send event="own" delay="10ms"/><send event="tosib" delay="10ms" target="#_scxml_{tid}"/></onentry>
+<transition event="own"><script>mark('own')</script></transition></state></scxml>"##,
+                            ns = NS,
+                            tid = tid
+                        );
+                        let sess = start_n(&ex, &doc, &log, &tx);
+                        cancel_and_join(sess);
+                        cancel_and_join(target);
+                    })
+                }),
+                oracle: Box::new(|o: &Obs| {
+                    basic_outcome(o)?;
+                    // each delayed event at most once, nothing processed by the sender after its cancel event
+                    let mut tids: Vec<u32> = o.recs.iter().map(|r| r.0).collect();
+                    tids.sort();
+                    tids.dedup();
+                    let mut class = vec![];
+                    for t in tids {
+                        let names = xrecv_names(&o.recs, t);
+                        if let Some(pos) = names.iter().position(|n| n == fsm::EVENT_CANCEL_SESSION) {
+                            if names.len() > pos + 1 {
+                                return Err(("processed-after-termination".into(), format!("{:?}", names)));
+                            }
+                        }
+                        for e in ["own", "tosib"] {
+                            let c = names.iter().filter(|n| *n == e).count();
+                            if c > 1 {
+                                return Err(("delivered-twice".into(), format!("{:?}", names)));
+                            }
+                            if c == 1 {
+                                class.push(e);
+                            }
+                        }
+                    }
+                    Ok(format!("{:?}", class))
+                }),
+            });
+        }
         if prop == "C17" {
             let simple: Oracle = Box::new(|o: &Obs| {
                 basic_outcome(o)?;
@@ -591,6 +847,71 @@ mod imp {
         }
     }
 
+    /// C16 seam: every duration spelling over a small alphabet through parse_duration_to_milliseconds
+    fn duration_spellings(ctx: &Ctx, out: &mut WorkerOut) {
+        let alpha = ["0", "1", "5", "9", ".", "m", "s", "h", "d", "M", "S", "D", " ", "-", "e"];
+        let maxlen = if ctx.thorough() { 6 } else { 5 };
+        let mut total = 0u64;
+        for len in 1..=maxlen {
+            let n = (alpha.len() as u64).pow(len as u32);
+            for i in 0..n {
+                total += 1;
+                if !ctx.mine(total as usize) {
+                    continue;
+                }
+                let mut x = i;
+                let mut sp = String::new();
+                for _ in 0..len {
+                    sp.push_str(alpha[(x % alpha.len() as u64) as usize]);
+                    x /= alpha.len() as u64;
+                }
+                let r = std::panic::catch_unwind(|| rufsm::executable_content::parse_duration_to_milliseconds(&sp));
+                out.add("duration_spellings", 1);
+                let got = match r {
+                    Ok(v) => v,
+                    Err(_) => {
+                        if !out.violations.iter().any(|v| v["sig"] == "duration:panic") {
+                            out.violation(ctx, "duration-panic", "duration:panic", &format!("parse_duration_to_milliseconds({:?}) panics: {:?}", sp, take_panics().last()), json!({"engine":"e4","duration": sp}));
+                        }
+                        continue;
+                    }
+                };
+                // documented form: digits, optional fraction, unit
+                let pos = sp.find(|c: char| c.is_ascii_alphabetic());
+                if let Some(p) = pos {
+                    let (num, unit) = sp.split_at(p);
+                    let well_formed_num = !num.is_empty()
+                        && num.chars().all(|c| c.is_ascii_digit() || c == '.')
+                        && num.matches('.').count() <= 1
+                        && !num.ends_with('.')
+                        && num.chars().next().map(|c| c.is_ascii_digit()).unwrap_or(false);
+                    // units are documented in lower case, the test-suite also uses upper case; mixed
+                    // case is not documented either way and is not judged
+                    let uniform = unit == unit.to_ascii_lowercase() || unit == unit.to_ascii_uppercase();
+                    let f = match unit.to_ascii_lowercase().as_str() {
+                        _ if !uniform => None,
+                        "ms" => Some(1.0),
+                        "s" => Some(1000.0),
+                        "m" => Some(60000.0),
+                        "h" => Some(3_600_000.0),
+                        "d" => Some(86_400_000.0),
+                        _ => None,
+                    };
+                    if let (true, Some(f)) = (well_formed_num, f) {
+                        let exp = (num.parse::<f64>().unwrap() * f).round() as i64;
+                        out.add("duration_spellings_judged", 1);
+                        if got != exp {
+                            let sig = format!("duration:{}", unit.to_ascii_lowercase());
+                            if !out.violations.iter().any(|v| v["sig"] == sig.as_str()) {
+                                out.violation(ctx, "duration-value", &sig, &format!("duration {:?} is {} ms, rFSM computes {}", sp, exp, got), json!({"engine":"e4","duration": sp}));
+                            }
+                        }
+                    }
+                }
+            }
+        }
+    }
+
     fn worker(ctx: &Ctx) {
         silence_stdout();
         globals();
@@ -598,6 +919,9 @@ mod imp {
         verif_sync::install(Some(Arc::new(Rt(sched.clone()))));
         let mut out = WorkerOut::default();
         let thorough = ctx.thorough();
+        if ctx.prop == "C16" {
+            duration_spellings(ctx, &mut out);
+        }
         for sc in scenarios(&ctx.prop) {
             let b = if thorough { sc.thorough_bound } else { sc.quick_bound };
             run_scenario(ctx, &mut out, &sc, &sched, b, if thorough { 400_000 } else { 30_000 }, None);
